@@ -243,10 +243,70 @@ def signatures():
                 [("o1", "P0", "r2"), ("o2", "P1", "r3")], ["signatures"])
 
 
+def literal_array_inner():
+    """inner product of an array of literals with a secret array, both orders"""
+    st = [{"k": "lit", "x": "w1", "b": "Int", "v": 2}, {"k": "lit", "x": "w2", "b": "Int", "v": 3},
+          {"k": "arrnew", "x": "w", "es": ["w1", "w2"]}, inp("s", "s", ("arr", SI, 2)),
+          {"k": "inner", "x": "r1", "a": "w", "b": "s"}, {"k": "inner", "x": "r2", "a": "s", "b": "w"},
+          inp("pa", "pa", ("arr", PI, 2), "P1"), {"k": "inner", "x": "r3", "a": "w", "b": "pa"}]
+    return prog(st, [("o1", "P0", "r1"), ("o2", "P0", "r2"), ("o3", "P1", "r3")], ["literal-array-inner"])
+
+
+def object_key_order():
+    return prog([inp("z", "in_z", SI), inp("a", "in_a", SI), inp("m", "in_m", SI, "P1"),
+                 {"k": "objnew", "x": "o", "fs": [("zed", "z"), ("alpha", "a"), ("mid", "m")]},
+                 {"k": "fld", "x": "fz", "a": "o", "f": "zed"}, {"k": "fld", "x": "fa", "a": "o", "f": "alpha"},
+                 {"k": "bin", "x": "d", "op": "OSub", "a": "fz", "b": "fa"}],
+                [("o1", "P0", "d"), ("o2", "P1", "o")], ["object-key-order"])
+
+
+def literal_divisions():
+    st = []
+    outs = []
+    pairs = [(3 * (2 ** 61 + 1), 3, "Int"), (-7, 2, "Int"), (7, -2, "Int"), (2 ** 64 + 1, 1, "UInt"), (84, 2, "Int"), (10 ** 30, 7, "UInt")]
+    st.append(inp("x", "x", SI)); st.append(inp("u", "u", SU))
+    for i, (a, b, base) in enumerate(pairs):
+        st += [{"k": "lit", "x": f"a{i}", "b": base, "v": a}, {"k": "lit", "x": f"b{i}", "b": base, "v": b},
+               {"k": "bin", "x": f"q{i}", "op": "ODiv", "a": f"a{i}", "b": f"b{i}"},
+               {"k": "bin", "x": f"r{i}", "op": "OMod", "a": f"a{i}", "b": f"b{i}"},
+               {"k": "bin", "x": f"s{i}", "op": "OAdd", "a": ("x" if base == "Int" else "u"), "b": f"q{i}"},
+               {"k": "bin", "x": f"t{i}", "op": "OAdd", "a": f"s{i}", "b": f"r{i}"}]
+        outs.append((f"o{i}", "P0", f"t{i}"))
+    return prog(st, outs, ["literal-division"])
+
+
+def closure_factory():
+    """two closures produced by one factory (same code object, different captured value), passed as plain functions"""
+    body_u = [{"k": "bin", "x": "s", "op": "OAdd", "a": "e", "b": "u"}]
+    body_v = [{"k": "bin", "x": "s", "op": "OAdd", "a": "e", "b": "v"}]
+    facc_u = [{"k": "bin", "x": "s", "op": "OSub", "a": "acc", "b": "u"}, {"k": "bin", "x": "t", "op": "OAdd", "a": "s", "b": "e"}]
+    facc_v = [{"k": "bin", "x": "s", "op": "OSub", "a": "acc", "b": "v"}, {"k": "bin", "x": "t", "op": "OAdd", "a": "s", "b": "e"}]
+    st = [inp("a", "a", ("arr", SI, 2)), inp("u", "u", SI), inp("v", "v", SI, "P1"),
+          {"k": "def", "f": "add", "params": [("e", SI)], "ret": SI, "body": body_u, "res": "s", "form": "plain"},
+          {"k": "map", "x": "m1", "a": "a", "f": "add"},
+          {"k": "def", "f": "add", "params": [("e", SI)], "ret": SI, "body": body_v, "res": "s", "form": "plain"},
+          {"k": "map", "x": "m2", "a": "a", "f": "add"},
+          {"k": "def", "f": "fold", "params": [("acc", SI), ("e", SI)], "ret": SI, "body": facc_u, "res": "t", "form": "plain"},
+          {"k": "reduce", "x": "r1", "a": "a", "f": "fold", "init": "u"},
+          {"k": "def", "f": "fold", "params": [("acc", SI), ("e", SI)], "ret": SI, "body": facc_v, "res": "t", "form": "plain"},
+          {"k": "reduce", "x": "r2", "a": "a", "f": "fold", "init": "v"}]
+    text = ("from nada_dsl import *\n\n\ndef nada_main():\n    party_P0 = Party(name='P0')\n    party_P1 = Party(name='P1')\n"
+            "    a = Array(SecretInteger(Input(name='a', party=party_P0)), size=2)\n"
+            "    u = SecretInteger(Input(name='u', party=party_P0))\n    v = SecretInteger(Input(name='v', party=party_P1))\n"
+            "    def adder(c):\n        def add(e: SecretInteger) -> SecretInteger:\n            s = e + c\n            return s\n        return add\n"
+            "    def folder(c):\n        def fold(acc: SecretInteger, e: SecretInteger) -> SecretInteger:\n            s = acc - c\n            t = s + e\n            return t\n        return fold\n"
+            "    m1 = a.map(adder(u))\n    m2 = a.map(adder(v))\n    r1 = a.reduce(folder(u), u)\n    r2 = a.reduce(folder(v), v)\n"
+            "    return [Output(m1, 'o1', party_P0), Output(m2, 'o2', party_P0), Output(r1, 'o3', party_P1), Output(r2, 'o4', party_P1)]\n")
+    d = prog(st, [("o1", "P0", "m1"), ("o2", "P0", "m2"), ("o3", "P1", "r1"), ("o4", "P1", "r2")], ["closure-factory"])
+    d["text"] = text
+    return d
+
+
 def all_families():
     return [nested_capture(), reduce_computed_initial(), shared_function_two_sites(), function_calls_function(),
             compound_types(), array_param(), size_zero_array(), helper_from_two_functions(), same_value_two_types(),
             map_zip_mixed(), public_returning_function(), literal_param_fold(), kwargs_call(), noncommutative_mix(), function_body_literal(),
             inner_public_secret(), inner_int_uint(), untruthful_annotation(), secret_flows(), signatures(), output_of_function(),
             dup_inputs("same-party"), dup_inputs("same-party-diff-type"), dup_inputs("diff-party"), dup_inputs("diff-party-one-dead"),
-            dup_inputs("same-party-one-dead")] + rejected_functions()
+            dup_inputs("same-party-one-dead"), literal_array_inner(), object_key_order(), literal_divisions(),
+            closure_factory()] + rejected_functions()
